@@ -41,5 +41,6 @@ def run(e, R, tier):
         B.r_mgr_total,
         C.r_feeder,
         L.r_drop_resolves,
+        T.r_spawn_site,
     ])
     R.trust("threading._register_atexit hooks run before non-daemon threads are joined; weakref callbacks run when the referent dies")
